@@ -380,7 +380,7 @@ def crash(case):
         variants.append((c, G.text_of(lines, upto, tail), nk, ptoks))
         if c in ('row', 'complete'):     # the same cut with the final newline not yet flushed
             variants.append((c, G.text_of(lines, upto, tail)[:-1], nk, ptoks))
-    for c, text, nk, ptoks in variants:
+    for vi, (c, text, nk, ptoks) in enumerate(variants):
         exp = expected_tables(model, c, nk, ptoks)
         tag = 'trunc=' + c
         chk.note('log-texts')
@@ -406,8 +406,9 @@ def crash(case):
                               msg='Log(%s) raised %s: %s' % (kind, type(e).__name__, str(e)[:200]), shape=shape)]
                 else:
                     # flatten works on the records, which were just compared with the printed tables: in the quick
-                    # tier it is exercised through the first input kind of each text only
-                    f = judge(log, exp, versions, tag, flatten=THOROUGH or ik == 0)
+                    # tier it is exercised through the first input kind of each text only, and for the cuts behind
+                    # the 'Loop time' line (all of which leave the same tables as the 'loop' cut) for the first one
+                    f = judge(log, exp, versions, tag, flatten=THOROUGH or (ik == 0 and (c != 'post' or vi == 0)))
                     if c == 'complete' and len(exp) >= 2 and not f and (THOROUGH or ik == 0):
                         f += compare_flatten(log, exp, tag, 1, None)
                         f += compare_flatten(log, exp, tag, 0, -1)
